@@ -189,6 +189,11 @@ for (nm, tier, props) in (
     _k("s12_" + nm, MQ_S, "S", props, tier, nm + "; arbitrary wf state; one task pre-parked on each list",
        unwind_props=(["C15"] if nm.startswith("poll_") or nm.startswith("start_send") else []))
 
+_k("s12_into_single_bcast_n2", MQ_S, "S", ["C09", "C12", "C14", "C15"], "quick", "N=2, 2 streams, <=3 consumers; into_single on a futures receiver")
+_k("s12_into_single_mpmc_n2", MQ_S, "S", ["C09", "C12", "C14", "C15"], "quick", "N=2, 1 stream")
+_k("s12_uni_into_multi_bcast_n2", MQ_S, "S", ["C09", "C10", "C14", "C15"], "quick", "N=2, 2 streams; FutInnerUniRecv::into_multi")
+_k("s12_uni_add_stream_bcast_n2", MQ_S, "S", ["C09", "C10", "C14", "C15"], "thorough", "N=2, 2 streams; add_stream_with")
+
 # S12w: FutWait alone (callee contracts of the futures harnesses)
 for (nm, tier) in (("notify_0", "thorough"), ("notify_1", "quick"), ("notify_2", "quick"), ("notify_9", "thorough"),
                    ("notify_all_0", "thorough"), ("notify_all_2", "quick"), ("park_s00", "quick"), ("park_s11", "quick"),
@@ -230,6 +235,13 @@ for (nm, tier, props, b) in (
         ("i7_view_bcast_n1_b3", "thorough", ["C01", "C04", "C07"], 3)):
     _k(nm, MQ_S, "I", props, tier, IB % b, label="proved-for-stated-bounds (<= %d env actions, retries bounded by them)" % b)
 
+_k("i2_recv_churn_bcast_n2_b2", MQ_S, "I", ["C01", "C06", "C12"], "quick", "N=2, shared stream; env = sibling receives + sibling handles cloned/dropped; 2 env actions", label="proved-for-stated-bounds (<= 2 env actions)")
+_k("i2_recv_churn_mpmc_n2_b2", MQ_S, "I", ["C01", "C12"], "thorough", "N=2, shared stream; env = sibling receives + sibling handles cloned/dropped; 2 env actions", label="proved-for-stated-bounds (<= 2 env actions)")
+_k("i13_drop_send_race_bcast_n2", MQ_S, "I", ["C07", "C08", "C14"], "quick", "writer count 1..3; another sender dropped at any point in between", label="proved-for-stated-bounds (<= 1 env action)")
+_k("i13_drop_send_race_mpmc_n2", MQ_S, "I", ["C07", "C08"], "thorough", "writer count 1..3; another sender dropped at any point in between", label="proved-for-stated-bounds (<= 1 env action)")
+_k("i12_remove_consumer_n2", MQ_S, "I", ["C11", "C12"], "quick", "consumer count 1..3; a sibling handle dropped at any point in between", label="proved-for-stated-bounds (<= 1 env action)")
+_k("i12_dup_consumer_n2", MQ_S, "I", ["C12"], "quick", "consumer count 1..2; a sibling handle dropped at any point in between", label="proved-for-stated-bounds (<= 1 env action)")
+
 # I5: wait arguments under interference
 for (nm, tier) in (("i5_recv_args_sole_bcast_n2_b2", "quick"), ("i5_recv_args_shared_bcast_n2_b2", "quick"),
                    ("i5_recv_args_shared_mpmc_n2_b2", "quick"), ("i5_recv_view_args_bcast_n2_b2", "thorough")):
@@ -238,7 +250,7 @@ for (nm, tier) in (("i5_recv_args_sole_bcast_n2_b2", "quick"), ("i5_recv_args_sh
 # T: try operations run alone from frozen-others states
 for (nm, tier) in (("t1_try_send_bcast_n2", "quick"), ("t1_try_send_mpmc_n2", "quick"), ("t3_try_recv_bcast_n2", "quick"),
                    ("t3_try_recv_mpmc_n2", "quick"), ("t4_try_view_bcast_n2", "quick"), ("t4_try_view_mpmc_n2", "thorough")):
-    _k(nm, MQ_S, "T", ["C18"], tier, "N=2; arbitrary pins, unpublished claims, stale cache; silent environment; <= 24 own shared accesses",
+    _k(nm, MQ_S, "T", ["C18"], tier, "N=2; arbitrary pins, unpublished claims, stale cache; silent environment; <= 40 own shared accesses",
        unwind_props=["C18"])
 
 # W: wait strategies (wait.rs)
